@@ -62,11 +62,13 @@ WithNul(ls) == IF Len(ls) = 0 THEN ls ELSE <<ls[1], NULLINE>> \o Tail(ls)
               non-matching filler (so it is certainly still writing when ripgrep stops early)
      early    none | m1 | q | l (flags) | bin (NUL line in the command's output => binary quit)
      preglob  none | sel (--pre-glob selects the file) | unsel (--pre-glob selects nothing)
+              | negsel (only a negated glob, which the file does not match: selected) | negunsel (... matches: not selected)
      threads  1 | 4
      codec    gzip | bzip2 | xz ;  zstate valid | trunc | unrec (compressed bytes, name not
               recognised) | nocmd (decompressor cannot be started)                          *)
 
-Selected(s) == IF s.kind = "z" THEN s.zstate # "unrec" ELSE s.preglob \in {"none", "sel"}
+\* negsel / negunsel: every --pre-glob is negated ("!*.zzz" / "!*.txt"): a file that none of them matches IS selected
+Selected(s) == IF s.kind = "z" THEN s.zstate # "unrec" ELSE s.preglob \in {"none", "sel", "negsel"}
 Spawned(s) == ~(s.kind = "missing" \/ (s.kind = "z" /\ s.zstate = "nocmd"))
 \* the model knows the bytes the command writes, except for a truncated archive
 KnownChild(s) == s.kind = "pre" \/ (s.kind = "z" /\ s.zstate = "valid")
